@@ -309,6 +309,46 @@ fn kf_fail(rec: &mut Rec, counts: &mut BTreeMap<String, u64>, text: String) {
 /// every other symptom is recorded as an anomaly in the run's notes, not as a violation of the property.
 fn judge(rec: &mut Rec, anoms: &mut Vec<String>, not_judged: bool, text: String) { if not_judged { anoms.push(text); } else { rec.oracle_fail(text); } }
 
+const KF5_TEXT: &str = "KF-C10-5 startup hands a released blocked ChannelMonitorUpdate to chain::Watch before the replay of an earlier in-flight update of the same channel: the MonitorUpdatesComplete background event of ANOTHER channel (all of its in-flight updates are already in its monitor) runs a completion action that releases the blocked update while the channel's own MonitorUpdateRegeneratedOnStartup is still queued (background-event order follows per_peer_state hash order, so it happens on some restarts only); ChannelMonitor::update_monitor panics 'Attempted to apply ChannelMonitorUpdates out of order' and the node cannot start";
+
+/// Re-runs the scenario of world `w` in a fresh Net and restarts t a dozen times from the world's bytes with an ASYNCHRONOUS persister
+/// (same reload path): Some(panic text, k of n) if any of the restarts panics, None if the node starts every time.
+fn confirm_with_async_persister(seed: u64, topo: usize, flavor: u64, t: usize, async_t: bool, n_ops: usize, w: &World) -> Option<String> {
+	let (mut net, wpts, _, _) = guarded(AssertUnwindSafe(|| run_scenario(seed, topo, flavor, t, async_t, n_ops, w.p))).ok()?;
+	if wpts.len() != w.p + 1 { std::mem::forget(net); return None; }
+	let n_ch = wpts[0].views.len();
+	let mgr = if w.rebuild { wpts[w.q].mgr_rebuild.clone() } else { wpts[w.q].mgr.clone() };
+	let mons: Vec<Vec<u8>> = (0..n_ch).map(|k| wpts[w.mon_pts[k]].mons[k].clone()).collect();
+	{ use lightning::ln::msgs::BaseMessageHandler; for j in 0..net.nodes.len() { if j != t { net.nodes[j].node.peer_disconnected(net.ids[t]); } } }
+	let (mut bad, mut first) = (0, String::new());
+	vh::RELOAD_RECONSTRUCT_FROM_MONITORS.store(w.rebuild, std::sync::atomic::Ordering::Relaxed);
+	for _ in 0..12 { if let Err(e) = probe_async_restart(&mut net, t, &mgr, &mons) { if bad == 0 { first = e.chars().take(110).collect(); } bad += 1; } }
+	vh::RELOAD_RECONSTRUCT_FROM_MONITORS.store(false, std::sync::atomic::Ordering::Relaxed);
+	std::mem::forget(net);
+	if bad > 0 { Some(format!("{} of 12 restarts from the same bytes panic: {}", bad, first)) } else { None }
+}
+
+/// Diagnostic (VERIF_C10_ASYNC_PROBE=n): restart t from the given bytes with a persister that answers InProgress (the node
+/// keeps persisting asynchronously across the restart — unlike Net::restart_from, which installs a synchronous one) and run the
+/// startup background events; returns the panic text, if any.
+fn probe_async_restart(net: &mut Net, t: usize, mgr: &[u8], mons: &[Vec<u8>]) -> Result<(), String> {
+	use lightning::ln::functional_test_utils::_reload_node;
+	use lightning::ln::msgs::BaseMessageHandler;
+	use lightning::util::test_utils;
+	let config = net.nodes[t].node.get_current_config();
+	let persister: &'static test_utils::TestPersister = leak(test_utils::TestPersister::new());
+	let node = &mut net.nodes[t];
+	let cm: &'static test_utils::TestChainMonitor<'static> = leak(test_utils::TestChainMonitor::new(Some(node.chain_source), node.tx_broadcaster, node.logger, node.fee_estimator, persister, node.keys_manager));
+	node.chain_monitor = cm;
+	let refs: Vec<&[u8]> = mons.iter().map(|m| &m[..]).collect();
+	let new_mgr = guarded(AssertUnwindSafe(|| _reload_node(node, config, mgr, &refs, None)))?;
+	let new_mgr: &'static lightning::ln::functional_test_utils::TestChannelManager<'static, 'static> = leak(new_mgr);
+	node.node = new_mgr;
+	{ let mut q = persister.update_rets.lock().unwrap(); for _ in 0..64 { q.push_back(ChannelMonitorUpdateStatus::InProgress); } }
+	node.chain_monitor.added_monitors.lock().unwrap().clear();
+	guarded(AssertUnwindSafe(|| { let _ = new_mgr.get_and_clear_pending_msg_events(); }))
+}
+
 fn sum_value_to_self(net: &Net, n: usize) -> Option<u64> {
 	let mut s = 0;
 	for (_, peer, cid) in chans_of(net, n) { s += vh::channel_value_to_self_msat(net.nodes[n].node, &net.ids[peer], &cid)?; }
@@ -432,11 +472,31 @@ fn main() {
 			let mut op = format!("reload {}", open_q.len());
 			for &k in &open_q { let c = qv[k].chan.unwrap(); op.push_str(&format!(" {} {} {} {} {} {} {} {} {} {}", c[0], c[1], c[2], c[3], c[4], csv(&qv[k].inflight), mv[k].mon_id, mv[k].mon[0], mv[k].mon[1], mv[k].mon[2])); }
 			let unblocked: Vec<u64> = qv.iter().map(|v| v.chan.map(|c| c[1]).unwrap_or(0)).collect();
+			if let Some(n) = std::env::var("VERIF_C10_ASYNC_PROBE").ok().and_then(|x| x.parse::<usize>().ok()) {
+				{ use lightning::ln::msgs::BaseMessageHandler; for j in 0..net.nodes.len() { if j != t { net.nodes[j].node.peer_disconnected(net.ids[t]); } } }
+				let mut res: BTreeMap<String, usize> = BTreeMap::new();
+				for _ in 0..n { let r = probe_async_restart(&mut net, t, mgr, &mons); *res.entry(match r { Ok(()) => "started".to_string(), Err(e) => e.chars().take(90).collect() }).or_insert(0) += 1; }
+				eprintln!("ASYNC-PROBE {} :: {:?}", tag, res);
+				std::mem::forget(net); continue;
+			}
 			let trace_mark = net.trace.len();
 			vh::RELOAD_RECONSTRUCT_FROM_MONITORS.store(w.rebuild, std::sync::atomic::Ordering::Relaxed);
 			let seen = match guarded(AssertUnwindSafe(|| observe_restart(&mut net, t, mgr, &mons, &unblocked))) { Ok(s) => s, Err(e) => Seen::Err(format!("PANIC {}", e)) };
 			vh::RELOAD_RECONSTRUCT_FROM_MONITORS.store(false, std::sync::atomic::Ordering::Relaxed);
 			let line = seen_line(&seen, &open_q);
+			// A panic of the startup background events (after a successful read) in a world of an asynchronously persisting node:
+			// Net::restart_from installs a SYNCHRONOUS persister, so a replayed update completes at once and completion actions run that an
+			// asynchronous persister would not have triggered yet.  Re-run the world and restart with an asynchronous persister instead:
+			// if the node then starts every time the panic is an artifact of the harness (discarded, counted); if it still panics it is
+			// the implementation (the reload decision itself cannot be observed in either case: no op line).
+			if let Seen::Err(e) = &seen { if w.admissible && async_t && (e.contains("returned Completed while prior updates are still InProgress") || e.contains("Attempted to apply ChannelMonitorUpdates out of order")) {
+				std::mem::forget(net);
+				match confirm_with_async_persister(seed, topo, flavor, t, async_t, n_ops, w) {
+					Some(text) => { let m = format!("{} :: {} [{}] :: with an asynchronous persister after the restart: {}", KF5_TEXT, tag, op, text); if w.rebuild { anoms.push(m); } else { kf_fail(&mut rec, &mut kf_counts, m); } },
+					None => { persister_switch += 1; rec.discarded += 1; },
+				}
+				continue;
+			} }
 			let lag = qv.iter().zip(mv.iter()).any(|(a, b)| a.chan.map(|c| c[0] < b.mon_id).unwrap_or(false));
 			let has_replay = matches!(&seen, Seen::Ok(v) if v.iter().any(|x| !x.1.is_empty()));
 			let class = format!("{}{}:{}{}{}", if w.admissible { "admissible" } else { "stale-monitor" }, if w.rebuild { "/rebuild" } else { "" }, match &seen { Seen::Err(_) => "err", Seen::Ok(v) if v.iter().any(|x| x.0) => "closed", _ => "resumed" },
@@ -449,7 +509,6 @@ fn main() {
 			n_adm += 1;
 			// ---- oracles ---------------------------------------------------------------------------------
 			let chans = match &seen {
-				Seen::Err(e) if e.contains("returned Completed while prior updates are still InProgress") || (async_t && e.contains("Attempted to apply ChannelMonitorUpdates out of order") && open_q.iter().any(|&k| qv[k].chan.unwrap()[5] > 0) && open_q.iter().any(|&k| !qv[k].inflight.is_empty())) => { persister_switch += 1; rec.discarded += 1; std::mem::forget(net); continue; }, // the sim restarts t with a synchronous persister: an artifact of switching persistence mode across the restart
 				Seen::Err(e) => { rec.oracle_fail(format!("{}: restart from durable state FAILED: {} [{}]", tag, e.chars().take(160).collect::<String>(), op)); std::mem::forget(net); continue; },
 				Seen::Ok(v) => v.clone(),
 			};
@@ -506,7 +565,14 @@ fn main() {
 				let seen2 = match guarded(AssertUnwindSafe(|| observe_restart(&mut net, t, mgr, &mons2, &unblocked))) { Ok(s) => s, Err(e) => Seen::Err(format!("PANIC {}", e)) };
 				vh::RELOAD_RECONSTRUCT_FROM_MONITORS.store(false, std::sync::atomic::Ordering::Relaxed);
 				match &seen2 {
-					Seen::Err(e) => { if e.contains("returned Completed while prior updates are still InProgress") { persister_switch += 1; std::mem::forget(net); continue; } judge(&mut rec, &mut anoms, w.rebuild, format!("{}: SECOND restart ({}) failed: {}", tag, if same_mons { "same monitors" } else { "monitors after replay" }, e.chars().take(160).collect::<String>())); std::mem::forget(net); continue; },
+					Seen::Err(e) => { if async_t && (e.contains("returned Completed while prior updates are still InProgress") || e.contains("Attempted to apply ChannelMonitorUpdates out of order")) {
+						std::mem::forget(net);
+						match confirm_with_async_persister(seed, topo, flavor, t, async_t, n_ops, w) {
+							Some(text) => { let m = format!("{} :: {} [{}] :: second restart; with an asynchronous persister after the restart: {}", KF5_TEXT, tag, op, text); if w.rebuild { anoms.push(m); } else { kf_fail(&mut rec, &mut kf_counts, m); } },
+							None => { persister_switch += 1; },
+						}
+						continue;
+					} judge(&mut rec, &mut anoms, w.rebuild, format!("{}: SECOND restart ({}) failed: {}", tag, if same_mons { "same monitors" } else { "monitors after replay" }, e.chars().take(160).collect::<String>())); std::mem::forget(net); continue; },
 					Seen::Ok(v2) => {
 						for k in 0..my.len() {
 							// fresh updates generated during the first recovery and persisted make the (unchanged) manager older than its monitor
@@ -643,7 +709,7 @@ fn main() {
 	rec.notes.insert("rule".into(), "crash worlds = (crash point after any op of a 3-node line or 4-node Y payment scenario — two inbound channels with colliding HTLC ids, forwards queued but not forwarded, application force-closes — with asynchronous, out-of-order monitor persistence at the node under test) x (manager bytes of any earlier point) x (per channel any monitor copy between the completed prefix and the last update handed to chain::Watch) x (production / reconstruct-from-monitors reload path), plus monitors older than that (stale-monitor class, DangerousValue expected, no oracles); each world re-runs the scenario in a fresh Net and restarts the real node from those bytes; reconcile lines = the manager copy's queued forwards against the closed channels' monitors; distinct by op text (the abstract world)".into());
 	rec.notes.insert("known_findings_hit".into(), format!("{:?} (every occurrence counted; at most 4 per finding are listed)", kf_counts));
 	rec.notes.insert("reconstruct_path_anomalies".into(), format!("{} (not judged; first: {:?})", anoms.len(), anoms.iter().take(3).map(|a| a.chars().take(260).collect::<String>()).collect::<Vec<_>>()));
-	rec.notes.insert("discarded_persister_mode_switch".into(), format!("{} worlds: ChannelManager panics 'Watch::update_channel returned Completed while prior updates are still InProgress' (or, with blocked updates and in-flight updates in the manager copy, 'Attempted to apply ChannelMonitorUpdates out of order') because the sim restarts the asynchronously persisting node with a synchronous persister: a replayed update completes at once and its completion action releases a blocked update of another channel before that channel's own in-flight updates were replayed / cleared", persister_switch));
+	rec.notes.insert("discarded_persister_mode_switch".into(), format!("{} worlds: the startup background events panic ('Watch::update_channel returned Completed while prior updates are still InProgress' / 'Attempted to apply ChannelMonitorUpdates out of order') only because the sim restarts the asynchronously persisting node with a synchronous persister; each was re-run and restarted 12 times with an asynchronous persister without a panic", persister_switch));
 	rec.notes.insert("worlds".into(), format!("worlds={} admissible={} with_replay={} with_closed_channel={} second_crash={} settled={} discarded_nondeterministic_rerun={} discarded_stale_monitor_panic_after_read={}", n_worlds, n_adm, n_replay, n_closed, n_second, n_settled, nondet, late_panics));
 	rec.finish();
 }
